@@ -89,10 +89,11 @@ class HistGen:
     new_cls, scale, cls, dim, kind)."""
 
     def __init__(self, rng, with_invalid=True, max_exp=3, simple_derived=0.0,
-                 refless_derived=0.0, split_items=0.0, alias=0.12, odd_symbols=0.15):
+                 refless_derived=0.0, split_items=0.0, alias=0.12, odd_symbols=0.15,
+                 long_names=None):
         self.rng = rng
         self.w = World()
-        self.w.long_names = rng.random() < .3
+        self.w.long_names = (rng.random() < .3) if long_names is None else long_names
         self.with_invalid = with_invalid
         self.max_exp = max_exp
         self.simple_derived = simple_derived
@@ -186,6 +187,48 @@ class HistGen:
         w.order.append(name)
         w.units[sym] = dict(cls=name, scale=Fraction(1), dim=dim)
         return dict(op=op, expect="ok", kind="derived-class", new_cls=name, new_sym=sym)
+
+    def product_class(self):
+        """a derived type that is the plain product of two base types with
+        reference units (if that dimension is still free)"""
+        saved = self.simple_derived
+        self.simple_derived = 1.0
+        try:
+            for _ in range(6):
+                snapshot = (dict(self.w.classes), dict(self.w.units), list(self.w.order), self.w.n)
+                st = self.derived_class()
+                if st is None:
+                    return None
+                items = self.w.classes.get(st.get("new_cls"), {}).get("items") if st["expect"] == "ok" else None
+                if items and len(items) == 2 and all(e == 1 for _, e in items):
+                    return st
+                # not a product: undo the bookkeeping and try again
+                self.w.classes, self.w.units, self.w.order, self.w.n = \
+                    snapshot[0], snapshot[1], snapshot[2], snapshot[3]
+            return None
+        finally:
+            self.simple_derived = saved
+
+    def power_class(self, e):
+        """a derived type `X ** e` over one base type with reference unit"""
+        w, rng = self.w, self.rng
+        bases = [n for n, c in w.classes.items() if c["ref"] is not None and "items" not in c]
+        rng.shuffle(bases)
+        for b in bases:
+            items = [(b, e)]
+            dim = w.dim_of_class_def(items)
+            if w.class_with_dim(dim) is not None:
+                continue
+            sym = render_symbol([(w.classes[b]["ref"], e)])
+            if sym is None or sym in w.units:
+                continue
+            name = w.fresh("D")
+            w.classes[name] = dict(dim=dim, ref=sym, quantum=None, units=[sym], items=items)
+            w.order.append(name)
+            w.units[sym] = dict(cls=name, scale=Fraction(1), dim=dim)
+            return dict(op=["decl_class", name, fmt_cdef(items), "-", "0", "-"], expect="ok",
+                        kind="derived-class", new_cls=name, new_sym=sym)
+        return None
 
     def scaled_unit(self):
         w, rng = self.w, self.rng
